@@ -143,7 +143,7 @@ func (s *session) model() error {
 		name             string
 		gen, ntr, direct int
 	}
-	cfgs := []cfg{{"MCOrder(pool)", 0, 1, 0}}
+	cfgs := []cfg{{"MCOrder(pool)", 0, 2, 0}}
 	if c.Thorough() {
 		cfgs = []cfg{{"MCOrder(pool,3 type orders,O(n^3) laws)", 0, 3, 1}, {"MCOrder(pool+generated)", 1, 2, 0}}
 	}
